@@ -70,7 +70,33 @@ CLAIMS['C17'] = dict(cat='model_checking', ref='DESIGN.md §4 C17',
          'agree with shadow raw pointers after every step; qsbr_ptr_span vs its source span for every sub-span; in the assertion-enabled build the ghost registry equals the multiset of live non-null wrappers after every step.',
     note='registry = ghost multiset behind the real out-of-line register/unregister functions; the link "quiescent/pause/resume assert registry emptiness" is by reading; sequences longer than the bound and self-assignment are outside the claim.')
 
+SEQ_TECH = 'own sequentialisation (preemption points before every atomic access, preemption bound 1) of the IR-lowered real code; preemption index enumerated exhaustively, every schedule executed and checked by CBMC (symbolic executor with pointer/deallocation checks and unwinding assertions; SAT instances trivial)'
+SEQ_NOTE = ('the solver does not quantify over schedules here: a symbolic preemption index was measured out of reach (path-wise > 1200 s per scenario, merged: no result in 900 s), so the index is enumerated and CBMC '
+            'acts as executor/checker of the real code; scenario list (concrete trees/keys or scripts) x every preemption point of one thread x one complete operation/script of the other thread(s); sequential consistency; '
+            'counterexamples are (scenario, preemption index) pairs, re-runnable with run_check.py --only; no native replay of schedules. ')
+CLAIMS['C03'] = dict(cat='exploration', ref='DESIGN.md §3.4, §4', tech=SEQ_TECH,
+    text='Exhaustive within its bound: for each of ~20 scenarios (one per structural change of the OLC tree x reader / second writer / same-key race) and EVERY atomic access of thread A as the preemption point at which '
+         'thread B completes its operation, results and final content equal those of one sequential order of the two calls. A genuine lost-read defect of the pinned tree is found this way and listed as a known finding.',
+    note=SEQ_NOTE + 'Not covered: two or more preemptions, three or more threads, weak memory, random exploration beyond the bound.')
+CLAIMS['C04'] = dict(cat='exploration', ref='DESIGN.md §3.4, §4', tech=SEQ_TECH,
+    text='Same schedules with the real QSBR code and two registrations: CBMC flags any access to a deallocated or out-of-bounds object on every schedule, the value view a preempted get() obtained is re-read after the '
+         'competing remove and before the reader quiesces, and after both threads quiesced nothing may be freed twice.',
+    note=SEQ_NOTE + 'Scans under interleavings and "eventually freed exactly once" beyond the two-operation scenarios are not covered (QSBR reclamation itself: C05/C06).')
+CLAIMS['C14'] = dict(cat='exploration', ref='DESIGN.md §3.4, §4', tech=SEQ_TECH,
+    text='After every explored schedule a sweep (get of every key, insert+remove next to every key) must complete within the unwinding bound of the restart loops, i.e. no node or root lock is left held by either operation.',
+    note=SEQ_NOTE + 'Deadlock-freedom proper (wait cycles of three or more threads) and allocation-failure points on the OLC index are NOT decided by this check.')
+CLAIMS['C05'] = dict(cat='exploration', ref='DESIGN.md §3.4, §4', tech=SEQ_TECH + '; QSBR state word kernels: SAT over all 64-bit words',
+    text='(a) SAT: every state-word transition function for ALL 64-bit words satisfying the invariant (release and assertion-enabled IR). (b) Exhaustive within its bound: 12 scripted 3-4 thread programs in which one call '
+         'is preempted at EVERY atomic access by a script of complete calls of the other threads; every free performed by QSBR is intercepted and must not happen while a thread registered at request time has yet to quiesce, pause or exit.',
+    note=SEQ_NOTE + 'Statistics-free build; exit modelled by pause; programs are a scenario list, not all programs of the quantifier.')
+CLAIMS['C06'] = dict(cat='exploration', ref='DESIGN.md §3.4, §4', tech=SEQ_TECH + '; QSBR state word kernels: SAT over all 64-bit words',
+    text='Same programs and schedules as C05: every deferred deallocation runs exactly once by the end of the drain, the registered-thread count equals the ghost count at every call boundary, requests are executed within three '
+         'all-thread quiescent rounds, and no per-thread or orphaned list is left non-empty.',
+    note=SEQ_NOTE + 'Statistics-free build; scenario list.')
+
 NOT_APPLICABLE = {
+    'C09': 'needs the OLC iterator under interleavings: one sequential seek with a symbolic bound already costs 10 min on a 3-leaf tree, and with an enumerated preemption index a multi-step scan has ~300 preemption points per scenario '
+           'whose oracle must place the interference relative to each visitor call; not built - nothing about concurrent scans is claimed (DESIGN.md §4 C09)',
 }
 
 PENDING = 'check not built yet in this round (work in progress; see DESIGN.md §4)'
